@@ -115,6 +115,12 @@ def own_families():
                   'Sc': Seq((M('x', Tag(0, Ref('Cc'))), M('y', Tag(1, Ref('Cc')), 'O'), M('z', Tag(2, Of(Ref('Cc'), size=R(0, 2)))))),
                   'Tc': Cho((M('p', Tag(0, Ref('Cc'))), M('q', Tag(1, B))))},
                  ['Sc', 'Tc']))
+    # a tag on a reference to an ALIAS of a CHOICE: the forced EXPLICIT tagging has to follow the alias through
+    # every module it passes (three definitions: two moves put each in a module of its own)
+    fams.append(('choice-alias-under-tags',
+                 {'Cc': cc, 'Ca': Ref('Cc'),
+                  'Sa': Seq((M('x', Tag(0, Ref('Ca'))), M('y', B)))},
+                 ['Sa']))
     fams.append(('nested-constructors',
                  {'Lf': Seq((M('c', I3), M('d', B)), is_set=True),
                   'In': Seq((M('a', B), M('b', Ref('Lf'), 'O')), ext=True, adds=(M('e', U8, 'O'),)),
